@@ -55,8 +55,11 @@ def lazy_caches(ctx: Ctx, cls: ClassInfo) -> Dict[str, Cache]:
         memo = ctx._lazy_caches = {}
     if cls.qualname in memo:
         return memo[cls.qualname]
+    if not _candidates(cls):
+        memo[cls.qualname] = {}
+        return memo[cls.qualname]
     heavy = {f for n, f in cls.methods.items() if 'CalculateNode' in n or 'CalculateNumbr' in n}
-    ex = ctx.explorer(inline=lambda f, st: f.cls is cls and f not in heavy, unroll=1, max_paths=30000, opaque=heavy)
+    ex = ctx.explorer(raw=True, unroll=1, max_paths=30000, opaque=heavy)
     stores = []      # (method explored, path, event)
     methods = [f for f in cls.methods.values() if f.kind == 'function' and f not in heavy]
     per_method_paths = {}
@@ -157,6 +160,66 @@ def lazy_caches(ctx: Ctx, cls: ClassInfo) -> Dict[str, Cache]:
                         c.problems.append({'writer': e.func, 'node': e.node, 'field': fld, 'entry': f})
     memo[cls.qualname] = caches
     return caches
+
+
+def _candidates(cls: ClassInfo) -> Set[str]:
+    """Attributes tested with `self.X is None` somewhere in the class: the only possible lazy caches."""
+    out = set()
+    for f in cls.methods.values():
+        if f.kind != 'function' or not f.param_names:
+            continue
+        selfn = f.param_names[0]
+        for n in ast.walk(f.node):
+            if isinstance(n, ast.Compare) and len(n.ops) == 1 and isinstance(n.ops[0], (ast.Is, ast.Eq)) and \
+                    isinstance(n.comparators[0], ast.Constant) and n.comparators[0].value is None and \
+                    isinstance(n.left, ast.Attribute) and isinstance(n.left.value, ast.Name) and n.left.value.id == selfn:
+                out.add(mangle(cls.name, n.left.attr))
+    return out
+
+
+def all_cold_fields(ctx: Ctx) -> Set[str]:
+    memo = getattr(ctx, '_all_cold_fields', None)
+    if memo is not None:
+        return memo
+    ctx._all_cold_fields = set()          # recursion guard: the cache analysis itself runs without cold fields
+    out: Set[str] = set()
+    owner = {}
+    for c in ctx.ix.classes.values():
+        if not c.module.name.startswith('iOpt.') or not _candidates(c):
+            continue
+        for name in lazy_caches(ctx, c):
+            out.add(name)
+            owner[name] = c
+    ctx._all_cold_fields = out
+    ctx._cold_owner = owner
+    return out
+
+
+def report_used(ctx: Ctx):
+    """R-CACHE: every lazily cached attribute whose entry state the analysis took to be empty (cold) must be
+    coherent - otherwise what the rules proved about the cold computation does not carry over to warm objects."""
+    used = sorted(getattr(ctx, '_caches_used', ()))
+    if not used:
+        return
+    rid = 'R-CACHE'
+    ctx.rule(rid, 'lazily cached derived attributes relied upon by the analysis are re-established by every routine '
+                  'that changes what they are computed from')
+    owner = getattr(ctx, '_cold_owner', {})
+    for name in used:
+        cls = owner.get(name)
+        if cls is None:
+            continue
+        c = lazy_caches(ctx, cls).get(name)
+        if c is None:
+            continue
+        for pr in c.problems:
+            w = pr['writer']
+            ctx.fail(rid, w.short, w.loc(pr['node']),
+                     f'{w.short} changes {pr["field"]}, on which the lazily cached attribute {cls.name}.{c.name} '
+                     f'depends, without invalidating or recomputing it: later computations use a stale value',
+                     key=f'{rid}::{w.short}::stale-cache::{c.name}')
+        if not c.problems:
+            ctx.ok(rid, f'{cls.name}.{c.name}', f'lazy cache of {sorted(c.all_deps)} is coherent', cls.module.relpath)
 
 
 def _guards_before(p, e) -> List[Lit]:
